@@ -33,9 +33,12 @@ def gen(rng, tier, index):
     plan["out_mode"] = "w"
     plan["idclass"] = "plain"
     plan["inputs"] = [i for i in plan["inputs"] if "." not in i["stem"]][:5]
+    k = 0
     while len(plan["inputs"]) < 2:
-        stem = "cab"[len(plan["inputs"])] * 2
-        plan["inputs"].append({"stem": stem, "kind": "good", "nseq": 2, "len": 12})
+        stem = f"pad{k}"
+        k += 1
+        if all(i["stem"] != stem for i in plan["inputs"]):
+            plan["inputs"].append({"stem": stem, "kind": "good", "nseq": 2, "len": 12})
     stems = [i["stem"] for i in plan["inputs"]]
     if not plan["steps"]:
         plan["steps"] = [{"tag": "_1", "outcomes": {}}]
@@ -190,6 +193,9 @@ def run(plan, tier="quick") -> RunResult:
         h.update("\n".join(ref["sim"].event_lines(sizes=False)).encode())
     finally:
         w.close()
+    if ref["outcome"] == "raised" and "non-unique identifier" in str(ref["exc"]):
+        res.probe("duplicate-identifiers-refused")  # documented input validation
+        return _finish(res, h, plan)
     if ref["outcome"] != "returned":
         res.add(f"C19.B.reference-raised/{be}:{type(ref['exc']).__name__}",
                 f"uninterrupted apply_to raised {ref['exc']!r}", dict(plan, faults=[]))
